@@ -262,6 +262,10 @@ def s4_order_diff(ctx):
         return
     f = dict(elt[2])
     asset = f.get('asset')
+    if asset is not None and asset not in tg and (any(s_ in tg for s_ in T.subterms(asset)) and (fmt(it).find('None') >= 0 or any(s_[0] in ('havoc', 'lc') for s_ in T.subterms(it)))):
+        # the loop ranges over records (asset, quantity, ...) produced by something the engine did not read as a sequence: which assets those are is not decided here
+        ctx.undecided('C09.S4', 'each order is for the loop asset, dated dt', fn.site(), 'orders are built from records ranged over %s' % fmt(it)[:100])
+        return
     ctx.require(f.get('created_dt') == V('dt') and asset in tg, 'C09.S4', 'each order is for the loop asset, dated dt', fn.site(), fmt(asset) if asset else None, key='C09.S4|order-fields')
     # iteration: every key of the target portfolio, ascending
     srt = call_is(it, 'SORTED')
@@ -353,7 +357,8 @@ def s5_sizers(ctx):
         for s in sp:
             p, lp = s['path'], s['loop']
             asset, w, wsrc = loop_asset_weight(lp)
-            if wsrc is None or fmt(wsrc) == 'None' or asset is None:
+            from .sizers import arrayish
+            if wsrc is None or fmt(wsrc) == 'None' or asset is None or arrayish(lp.iter):
                 ctx.undecided('C09.S5', '%s assigns a target to every asset it iterates (no break/continue/filter)' % cname, lp.site, 'what the loop iterates was not traced back to the weights')
                 continue
             live_bodies = [b for b in s['bodies'] if b['path'].outcome != 'raise']
